@@ -10793,14 +10793,27 @@ class NetCDFRead(IORead):
         None, (12, 324, 432)
 
         """
-        nc = self.read_vars["variable_dataset"][ncvar]
+        g = self.read_vars
+        nc = g["variable_dataset"][ncvar]
 
         # 'nc' is the flattened dataset, so replace an 'ncvar' string
         # that contains groups (e.g. '/forecast/tas') with its
-        # flattened version (e.g. 'forecast__tas').
+        # flattened version (e.g. 'forecast__tas'). The flattened
+        # name is looked up in the flattener's own name mapping,
+        # because it is a hash when the flattened path is too long
+        # or is already in use.
         if ncvar.startswith("/"):
-            ncvar = ncvar[1:]
-            ncvar = ncvar.replace("/", flattener_separator)
+            flattened_names = g.get("flattened_variable_names")
+            if flattened_names is None:
+                flattened_names = {
+                    path: flat
+                    for flat, path in g["flattener_variables"].items()
+                }
+                g["flattened_variable_names"] = flattened_names
+
+            ncvar = flattened_names.get(
+                ncvar, ncvar[1:].replace("/", flattener_separator)
+            )
 
         var = nc[ncvar]
         try:
